@@ -243,7 +243,21 @@ def run(ctx):
                 rhs = g.comparators[0]
                 srcs = [rhs] + [st.value for st in ast.walk(ck.node) if isinstance(st, ast.Assign)
                                 and dotted(rhs) and dotted(st.targets[0]) == dotted(rhs)]
-                if any("conn_tmap" in norm_stmt(x) for x in srcs):
+                # membership must be tested against the COLLECTION of valid kinds
+                # (dict / keys view / tuple / list / set of it), not against text
+                # built from them (substring test)
+                def is_collection(x):
+                    d_ = dotted(x)
+                    if d_ and d_.endswith("conn_tmap"):
+                        return True
+                    if isinstance(x, ast.Call):
+                        fn_ = dotted(x.func) or ""
+                        if fn_ in ("tuple", "list", "set", "frozenset", "sorted") and x.args:
+                            return is_collection(x.args[0])
+                        if fn_.endswith("conn_tmap.keys"):
+                            return True
+                    return False
+                if any(is_collection(x) for x in srcs):
                     good = True
     if good:
         ctx.ok("C11.R2", "_check_conn_kind", sample="kind not in tuple(conn_tmap) -> ValueError")
@@ -269,7 +283,8 @@ def run(ctx):
     # ------------------------------------------------------------------- R3
     ctx.rule("C11.R3", "record columns: inet laddr<-1 raddr<-2 state<-3 inode<-9 "
              "(header skipped, port base 16, port 0 -> ()); unix type<-4 inode<-6 "
-             "path<-7 taken with a bounded split (the path is free text)", floor=8)
+             "path<-7 taken with a bounded split (the path is free text); a table is skipped "
+             "only when its file does not exist", floor=9)
     I = Interp(repo, A)
     pi = repo.func(pm, "NetConnections.process_inet")
     t = canon(I.call_function(pi, [("param", "file"), ("param", "family"),
@@ -307,6 +322,30 @@ def run(ctx):
             ctx.fail("C11.R3", key, pi.file, pi.node.lineno, pi.qual,
                      f"{name}: " + ("the port is not parsed as hexadecimal" if not base16
                                     else "a zero port no longer yields the empty address ()"))
+    # a table is skipped without being read only when its file does not exist
+    from ..core.cfg import decompose_guard
+    picfg = A.cfg(pi)
+    fparam = pi.node.args.args[0].arg if pi.node.args.args else "file"
+    opens = [n for c in calls_in(pi.node) if (dotted(c.func) or "").split(".")[-1] in
+             ("open_text", "open_binary", "open") for n in picfg.owners(c)]
+    early = [n for n in picfg.nodes if n.kind == "return"
+             and not any(picfg.dominates(o, n) for o in opens)]
+    bad_early = None
+    for n in early:
+        atoms = [(norm_stmt(a_).replace(" ", ""), t_) for e, pol, _ in picfg.guards(n)
+                 for a_, t_ in decompose_guard(e, pol)]
+        if not any(t_ is False and x.endswith(f"exists({fparam})") for x, t_ in atoms):
+            bad_early = (n, atoms)
+    if opens and bad_early is None:
+        ctx.ok("C11.R3", "inet:no-silent-skip", sample="early return only if the table file "
+               "does not exist")
+    else:
+        ctx.fail("C11.R3", "inet:no-silent-skip", pi.file,
+                 bad_early[0].line if bad_early else pi.node.lineno, pi.qual,
+                 "process_inet() returns without reading its table under "
+                 f"{[a for a, _ in bad_early[1]] if bad_early else '?'}: the rows of an "
+                 "existing /proc/net table are dropped (the only legitimate reason is that "
+                 "the file does not exist)")
     pu = repo.func(pm, "NetConnections.process_unix")
     tu = canon(I.call_function(pu, [("param", "file"), ("param", "family"),
                                     ("param", "inodes"), ("param", "filter_pid")]))
